@@ -307,21 +307,37 @@ def gen_param(rng, attr, numeric=False):
 
 
 def gen_modspec(rng, name, big):
+    """the module class as plain data.  `layers`: the classes of the hierarchy, BASE FIRST (layers[-1] is the module class,
+    layers[0] derives from the frappy base class); a layer marked `mixin` is a plain class (not a HasAccessibles) holding
+    Limit parameters and check_ hooks only, mixed into the next class of the chain (MRO: ... L[i+1], L[i] (mixin), L[i-1] ...).
+    Parameters, their Limit parameters and the check_ hooks on them are spread over the layers independently: limits are
+    introduced by the class of the parameter or by any class derived from it (also by one that merely inherits a hook),
+    hooks are defined by any class from the parameter's class upwards - several per parameter chain along the MRO."""
     base = rng.choice(BASES)
-    layers = [{'params': [], 'commands': [], 'hooks': []}, {'params': [], 'commands': [], 'hooks': []}]
+    nlayers = rng.choice([2, 2, 2, 3, 3, 4])
+    layers = [{'params': [], 'commands': [], 'hooks': []} for _ in range(nlayers)]
+    for i in range(1, nlayers - 1):
+        if rng.random() < 0.35:
+            layers[i]['mixin'] = True
+    full = [i for i in range(nlayers) if not layers[i].get('mixin')]      # classes that may hold anything
     names = ['p%d' % i for i in range(1, 8)] + PREDEF_PARAM_NAMES
     rng.shuffle(names)
     nparams = rng.randint(1, 6 if big else 4)
     custom_pool = ['xq1', 'xq2', '_yy', 'zed', 'value2', '_w']
     rng.shuffle(custom_pool)
     all_params = []
+
+    def limit_layer(lp):
+        """the class introducing a limit parameter: the class of the parameter, or any class above it"""
+        return lp if rng.random() < 0.5 else rng.randrange(lp, nlayers)
+
     for i in range(nparams):
         attr = names.pop()
         numeric = rng.random() < 0.5
         p = gen_param(rng, attr, numeric)
         if p['export'] == 'custom':
             p['export'] = custom_pool.pop()
-        layer = rng.choice([0, 0, 1])
+        layer = rng.choice(full[:-1] + full[:1] if len(full) > 1 else full) if rng.random() < 0.7 else rng.choice(full)
         layers[layer]['params'].append(p)
         all_params.append((layer, p))
         if numeric and rng.random() < 0.7 and not p['constant']:
@@ -330,24 +346,25 @@ def gen_modspec(rng, name, big):
                 # (Limit(export=False) cannot be declared: Limit.__set_name__ calls export.startswith)
                 lim = {'attr': attr + '_' + lk, 'limit': attr, 'export': True,
                        'readonly': rng.random() < 0.1, 'has_write': rng.random() < 0.3, 'has_read': False}
-                layers[layer if rng.random() < 0.7 else 1]['params'].append(lim)
+                layers[limit_layer(layer)]['params'].append(lim)
     if base in ('Writable', 'Drivable'):
         # target of the base class: give it a driver and limits
-        tl = rng.choice([0, 1])
+        tl = rng.choice(full)
         if rng.random() < 0.8:
             layers[tl]['params'].append({'attr': 'target', 'override': True, 'has_write': rng.random() < 0.85,
                                          'has_read': rng.random() < 0.3})
-            for lk in rng.choice([['min', 'max'], ['limits'], ['max'], []]):
-                layers[tl if rng.random() < 0.7 else 1]['params'].append(
+            for lk in rng.choice([['min', 'max'], ['limits'], ['max'], ['min', 'max', 'limits'], []]):
+                layers[limit_layer(tl)]['params'].append(
                     {'attr': 'target_' + lk, 'limit': 'target', 'export': True, 'readonly': False,
                      'has_write': rng.random() < 0.3, 'has_read': False})
-            all_params.append((tl, {'attr': 'target', 'dt': ['floatr', 0, 100]}))
+            # (`target` exists in the frappy base class: a hook on it may sit in ANY class of the hierarchy)
+            all_params.append((0, {'attr': 'target', 'dt': ['floatr', 0, 100]}))
     if base == 'Readable' and rng.random() < 0.5:
-        layers[rng.choice([0, 1])]['params'].append({'attr': 'value', 'override': True, 'has_write': False, 'has_read': True})
-    # hooks: on parameters of either layer, defined in either layer (a hook in layer 1 on a param of layer 0 chains)
+        layers[rng.choice(full)]['params'].append({'attr': 'value', 'override': True, 'has_write': False, 'has_read': True})
+    # hooks: on parameters of any layer, defined in that layer or any layer above (hooks of several classes chain)
     for layer, p in all_params:
-        for hl in range(layer, 2):
-            if rng.random() < 0.3:
+        for hl in range(layer, nlayers):
+            if rng.random() < (0.3 if nlayers == 2 else 0.22):
                 layers[hl]['hooks'].append({'attr': p['attr'], 'kind': rng.choice(HOOK_KINDS)})
     # commands
     cnames = ['c1', 'c2', 'stop', 'reset', 'go']
@@ -369,7 +386,7 @@ def gen_modspec(rng, name, big):
         export = rng.choices([True, False, 'custom'], [0.83, 0.07, 0.1])[0]
         if export == 'custom':
             export = custom_pool.pop()
-        layers[rng.choice([0, 1])]['commands'].append({'attr': cn, 'arg': arg, 'res': res, 'export': export})
+        layers[rng.choice(full)]['commands'].append({'attr': cn, 'arg': arg, 'res': res, 'export': export})
     if base == 'Drivable' and not any(c['attr'] == 'stop' for l in layers for c in l['commands']):
         # the inherited no-op stop() is not a recording driver: override it
         layers[0]['commands'].append({'attr': 'stop', 'arg': None, 'res': None, 'export': True})
@@ -412,6 +429,7 @@ class Box:
         self.rng = random.Random(0)
         self.hooks = {}        # id -> (kind)
         self.dtspecs = {}      # (classname, attr) -> dtspec for result generation
+        self.layerspec = {}    # generated class -> the layer (plain data) it was made from
 
 
 def hook_result(kind, value):
@@ -588,8 +606,20 @@ def build_node(nodespec):
         base = getattr(fm, ms['base'])
         known = {}
         mixins = tuple(feature_class(f) for f in ms.get('features', []))
-        c0 = mk_layer_class(box, 'GenA%d' % _clscount[0], mixins + (base,), ms['layers'][0], known)
-        c1 = mk_layer_class(box, 'GenB%d' % _clscount[0], (c0,), ms['layers'][1], known)
+        cls = None
+        pending = []      # plain mixins, combined by the next class towards the module class (the later one first in the MRO)
+        for i, layer in enumerate(ms['layers']):
+            cname = 'Gen%s%d' % (chr(ord('A') + i), _clscount[0])
+            if layer.get('mixin'):
+                c = mk_layer_class(box, cname, (), layer, known)
+                pending.insert(0, c)
+            else:
+                c = mk_layer_class(box, cname, tuple(pending) + ((mixins + (base,)) if cls is None else (cls,)), layer, known)
+                pending = []
+                cls = c
+            box.layerspec[c] = layer
+        assert not pending, 'the module class itself is not a mixin'
+        c1 = cls
         classes[ms['name']] = c1
         mcfg = {'cls': c1, 'description': 'generated module ' + ms['name']}
         if not ms['exported']:
@@ -621,14 +651,60 @@ def export_setting(ms_index, attr, cls_aobj, cfgover):
 
 
 def check_chain(mycls, attr):
+    """the check functions found in the class dicts along the MRO (used where no class layout is known: shipped classes)"""
     chain = []
-    for b in mycls.__mro__:
+    for pos, b in enumerate(mycls.__mro__):
         f = b.__dict__.get('check_' + attr)
         if f is None:
             continue
         hid = getattr(f, '_hook_id', None)
         if hid is not None:
-            chain.append(hid)
+            chain.append(pos)      # a programmer's hook is identified by the MRO position of its class
+        elif getattr(f, '__name__', '') == '<lambda>':
+            chain.append('limits')
+        else:
+            chain.append('foreign:' + getattr(f, '__qualname__', '?'))
+    return chain
+
+
+def class_layout(box, mycls, attr):
+    """the class layout of parameter `attr` AS THE PROGRAMMER WROTE IT (one entry per class of the MRO, most derived first):
+    [declares <attr>_min, declares <attr>_max, declares <attr>_limits, defines check_<attr>] - taken from the plain-data
+    spec the generated classes were made from, never from what HasAccessibles.__init_subclass__ left in the class dicts
+    (it attaches the automatic limit check there: that is the code under test)."""
+    from frappy.params import Limit
+    layout = []
+    for b in mycls.__mro__:
+        lay = box.layerspec.get(b)
+        if lay is not None:
+            decl = [any(p['attr'] == attr + '_' + k and p.get('limit') for p in lay['params']) for k in ('min', 'max', 'limits')]
+            own = any(h['attr'] == attr for h in lay['hooks'])
+        else:
+            # classes of frappy itself / feature mixins: their own bodies
+            decl = [isinstance(b.__dict__.get(attr + '_' + k), Limit) for k in ('min', 'max', 'limits')]
+            f = b.__dict__.get('check_' + attr)
+            own = f is not None and getattr(f, '__name__', '') != '<lambda>'
+            if own:
+                raise RuntimeError('class %s defines check_%s: no oracle for a hook of a shipped class' % (b.__name__, attr))
+        layout.append(decl + [own])
+    return layout
+
+
+def impl_chain(modobj, mycls, attr):
+    """the check functions the generated write wrapper of the REAL class runs (its `check_funcs`), in the model's terms:
+    'limits' for the automatic checkLimits call, the MRO position of the defining class for a programmer's hook"""
+    w = getattr(type(modobj), 'write_' + attr, None)
+    funcs = None
+    for d in (getattr(w, '__defaults__', None) or ()):
+        if isinstance(d, tuple):
+            funcs = d
+    if funcs is None:
+        return None
+    chain = []
+    for f in funcs:
+        if getattr(f, '_hook_id', None) is not None:
+            pos = [i for i, b in enumerate(mycls.__mro__) if b.__dict__.get('check_' + attr) is f]
+            chain.append(pos[0] if pos else 'unplaced-hook')
         elif getattr(f, '__name__', '') == '<lambda>':
             chain.append('limits')
         else:
@@ -665,7 +741,7 @@ def datainfo_validate(dt):
     return dt.validate
 
 
-def node_json(node, nodespec=None, classes=None):
+def node_json(node, nodespec=None, classes=None, box=None):
     from frappy.params import Parameter, Command, Limit
     mods = []
     specs = {ms['name']: ms for ms in (nodespec or {'modules': []})['modules']}
@@ -696,7 +772,9 @@ def node_json(node, nodespec=None, classes=None):
                     'readonly': bool(aobj.readonly),
                     'constant': None if aobj.constant is None else canon(aobj.constant),
                     'value': canon(aobj.value), 'readerror': readerror_json(aobj),
-                    'checks': check_chain(mycls, attr) if ms is not None else [],
+                    'checks': check_chain(mycls, attr) if ms is not None and box is None else [],
+                    **({'layers': class_layout(box, mycls, attr), 'implChain': impl_chain(modobj, mycls, attr)}
+                       if ms is not None and box is not None else {}),
                     'hasRead': getattr(mycls, 'read_' + attr, None) is not None,
                     'hasWrite': getattr(mycls, 'write_' + attr, None) is not None,
                     'datainfo': canonj(aobj.datatype.export_datatype()),
@@ -948,12 +1026,13 @@ def param_oracle(orc, box, modobj, mycls, attr, pobj, payload, kind, raws):
             orc.put('reval', [m, attr, canon(v)], orc.res(r2))
             if r2[0] == 'ok':
                 exp_safe(r2[1])
-            for b in mycls.__mro__:
+            for pos, b in enumerate(mycls.__mro__):
+                # a programmer's hook is identified by the MRO position of the class defining it
                 f = b.__dict__.get('check_' + attr)
                 hid = getattr(f, '_hook_id', None)
                 if hid is not None:
                     hr = hook_result(box.hooks[hid], v)
-                    orc.put('chk', [m, attr, hid, canon(v)], hr if isinstance(hr, str) else ['raise'] + err_of(hr))
+                    orc.put('chk', [m, attr, pos, canon(v)], hr if isinstance(hr, str) else ['raise'] + err_of(hr))
             lims = []
             for post in ('_limits', '_min', '_max'):
                 lp = modobj.parameters.get(attr + post)
@@ -1064,7 +1143,7 @@ class Session:
         self.conn = node.connect()            # receives the updates (activated)
         node.request(self.conn, 'activate', None, None)
         self.conn.msgs.clear()
-        self.nj = node_json(node, nodespec, self.classes)
+        self.nj = node_json(node, nodespec, self.classes, self.box)
         self.orc = Oracle()
         self.out_steps = []
 
@@ -1979,7 +2058,14 @@ def model_and_judge(ctx, rec):
 
 
 def compare(model_out, rec):
-    """first step at which model and implementation differ through obs, or None"""
+    """first step at which model and implementation differ through obs, or None; before the first step: the chain of check
+    functions the model computes from the class layout against the one the real write wrapper runs"""
+    impl = {(m['name'], a['attr']): a.get('implChain') for m in rec['node']['modules'] for a in m['accs'] if a['kind'] == 'param'}
+    for m, attr, chain in model_out.get('chains', []):
+        ic = impl.get((m, attr))
+        if ic is not None and ic != chain:
+            return {'step': 0, 'field': 'check-chain', 'model': [m, attr, chain], 'impl': [m, attr, ic],
+                    'req': rec['steps'][0]['req'] if rec['steps'] else None, 'pyclass': None}
     for i, (mo, st) in enumerate(zip(model_out['outs'], rec['steps'])):
         io = st['obs']
         for key in ('reply', 'calls', 'emits', 'after'):
@@ -1992,6 +2078,24 @@ def compare(model_out, rec):
 
 def _diff_rows(a, b):
     return [r for r in a if r not in b][:4]
+
+
+def layout_class(lay):
+    """distribution key of a class layout (MRO order, [min, max, limits, own check] per class)"""
+    decl = [i for i, l in enumerate(lay) if any(l[:3])]
+    own = [i for i, l in enumerate(lay) if l[3]]
+    if not decl:
+        return 'hooks-only(%d)' % min(len(own), 3)
+    first = max(decl)       # (one of) the classes defining a limit parameter first
+    if not own:
+        return 'limits-only'
+    if any(lay[i][3] for i in decl):
+        return 'limits+hook:class-with-limit-defines-own-check'
+    if all(o > d for o in own for d in decl):
+        return 'limits+hook:limit-introduced-above-inherited-hook'
+    if all(o < first for o in own):
+        return 'limits+hook:hook-in-derived-class'
+    return 'limits+hook:hooks-on-both-sides'
 
 
 def classify(st):
@@ -2073,6 +2177,12 @@ def run(ctx):
                     res.count('driver.called.' + st['req'][0])
                 if st['req'][0] == 'change' and (st['req'][1] or '').endswith('_limits'):
                     res.count('limits-pair.' + (st['obs']['reply'][0] if st['obs']['reply'][0] != 'error' else st['obs']['reply'][1]))
+            for mj in rec['node']['modules']:
+                for a in mj['accs']:
+                    lay = a.get('layers') if a['kind'] == 'param' else None
+                    if not lay or not any(any(l) for l in lay):
+                        continue
+                    res.count('layout.' + layout_class(lay))
             limit_used = bool(rec['oracle']['le']) or bool(rec['oracle']['chk'])
             res.count('oracle.limit-comparisons', len(rec['oracle']['le']))
             res.count('oracle.limit-comparisons.false', sum(1 for r in rec['oracle']['le'] if r[-1] is False))
